@@ -76,10 +76,21 @@ def oracle(case, rec):
     rec.cls('dtype=' + dt)
     f0, a0 = gens.relayout(fin.copy(), lay), gens.relayout(astored.copy(), lay)   # what the routines get (the case stays pristine)
     rec.cls('layout=' + lay)
+    ekind = case.get('ekind', 'f8')
+    rec.cls('edges-held-as=' + ekind)
+
+    def E():
+        if ekind == 'int-array':
+            return edges.astype(np.int64)
+        if ekind == 'int-list':
+            return [int(v) for v in edges]
+        if ekind == 'f4':
+            return edges.astype(np.float32)
+        return edges.copy()
     try:
-        one = np.asarray(emd.spectra.hilberthuang_1d(f0, a0, edges.copy(), mode=mode))
-        dense = np.asarray(emd.spectra.hilberthuang(f0, a0, edges.copy(), mode=mode, return_sparse=False))
-        sp = emd.spectra.hilberthuang(f0, a0, edges.copy(), mode=mode, return_sparse=True)
+        one = np.asarray(emd.spectra.hilberthuang_1d(f0, a0, E(), mode=mode))
+        dense = np.asarray(emd.spectra.hilberthuang(f0, a0, E(), mode=mode, return_sparse=False))
+        sp = emd.spectra.hilberthuang(f0, a0, E(), mode=mode, return_sparse=True)
     except Exception as e:
         raise Violation('C10/raises/' + type(e).__name__, repr(e))
     spd_before = np.asarray(sp.toarray()).copy()
@@ -150,6 +161,17 @@ def random_case(draw):
     import emd
     edges, _ = emd.spectra.define_hist_bins(lo, hi, nb, scale=scale)
     edges = np.asarray(edges, dtype=float)
+    # how the caller holds the edges: a float64 array, whole numbers as an integer array / a list of ints, or float32
+    ekind = draw(st.sampled_from(['f8', 'f8', 'f8', 'int-array', 'int-list', 'f4']))
+    if ekind.startswith('int'):
+        step = draw(st.sampled_from([1, 2, 5]))
+        lo = int(np.floor(lo))
+        edges = (lo + step * np.arange(nb + 1)).astype(float)
+        hi = edges[-1]
+    elif ekind == 'f4':
+        edges = edges.astype(np.float32).astype(float)
+        if np.any(np.diff(edges) <= 0):
+            ekind = 'f8'
     k = draw(st.integers(0, 2**32 - 1))
     rng = np.random.default_rng(k)
     f = lo - 0.3 * (hi - lo) + 1.6 * (hi - lo) * rng.random((T, M))
@@ -160,6 +182,7 @@ def random_case(draw):
     a = np.round((rng.random((T, M)) - draw(st.sampled_from([0.0, 0.0, 0.0, 0.3, 1.0]))) * 3, 4)     # also signed / negative
     return {'f': f, 'a': a, 'edges': edges, 'mode': draw(st.sampled_from(['energy', 'amplitude'])),
             'layout': draw(st.sampled_from(gens.LAYOUTS)), 'dtype': draw(st.sampled_from(['f8', 'f8', 'f4'])),
+            'ekind': ekind,
             'adtype': draw(st.sampled_from(['f8', 'f8', 'f8', 'i8', 'i4', 'i2', 'f4'])),
             'again': draw(st.sampled_from([1.0, 100.0, 9000.0]))}
 
